@@ -50,8 +50,8 @@ pub fn gen_history(ctx: &Ctx, max_updates: usize, objstm_bias: bool, allow_junk:
         // a handful of generation-0 objects holding very long runs of one byte: with Flate on the
         // containers the file stays a few KiB while the object streams inflate to megabytes
         let mut id = m.objects.keys().map(|k| k.0).max().unwrap_or(0) + 1;
-        for _ in 0..3 + ctx.draw(W, 3, "bomb-objects") {
-            let n = 200_000 + ctx.draw(W, 500_000, "bomb-len") as usize;
+        for _ in 0..4 + ctx.draw(W, 4, "bomb-objects") {
+            let n = 300_000 + ctx.draw(W, 1_200_000, "bomb-len") as usize;
             m.objects.insert((id, 0), MObj::Str(vec![b'a' + ctx.draw(W, 20, "bomb-byte") as u8; n], false));
             id += 1;
         }
@@ -116,6 +116,15 @@ pub fn gen_history(ctx: &Ctx, max_updates: usize, objstm_bias: bool, allow_junk:
         opts.raw_cr_eol = false;
     }
     let written = refwriter::write_history(ctx, &revisions, &opts);
+    if bomb {
+        // reach probe: do the object streams of this file together inflate to more than 256 times its size,
+        // spread over at least two containers?
+        let bodies: Vec<usize> = written.layout.fields.iter().filter(|f| f.2 == refwriter::FieldKind::ObjStmBody).map(|f| f.1 - f.0).collect();
+        let plain: usize = revisions.iter().flat_map(|r| r.objects.values()).map(|o| if let MObj::Str(s, _) = o { s.len() } else { 0 }).sum();
+        if bodies.len() >= 2 && plain > 256 * written.bytes.len() {
+            ctx.count("compressible-objstm-docs-over-256x-in-2+-containers");
+        }
+    }
     History { heavy: bomb, revisions, opts, written }
 }
 
